@@ -25,11 +25,12 @@ func init() {
 	core.Register(&core.Scenario{Prop: "C04", Name: "authz-history", Fn: c04Run})
 }
 
-var c04Roles = []string{"r1", "r2", "r3"}
+// (role names are compared exactly: "R1" is not "r1")
+var c04Roles = []string{"r1", "r2", "r3", "R1"}
 
 func pickRoles(t *core.Tape, tag string) []string {
 	var out []string
-	m := t.Choose(8, tag)
+	m := t.Choose(1<<len(c04Roles), tag)
 	for i, r := range c04Roles {
 		if m&(1<<i) != 0 {
 			out = append(out, r)
